@@ -2322,6 +2322,9 @@ def preprocess_file(
     if include_dirs is None:
         include_dirs = set()
     if file_path is not None:
+        # The directory of this file is searched for this file (and the files
+        # it includes) only: the caller's set is left as it is
+        include_dirs = set(include_dirs)
         include_dirs.add(os.path.abspath(os.path.dirname(file_path)))
     pp_skips = []
     pp_defines = []
